@@ -42,6 +42,11 @@ int main(int argc, char **argv) {
       if (!cur.empty()) vars.push_back(cur);
     }
     auto chai = vh::make_engine(true);
+    // const containers (the const overloads of [] / front / back / range are separate bindings)
+    chai->add_global_const(const_var(std::vector<Boxed_Value>{var(10), var(20), var(30)}), "cvec3");
+    chai->add_global_const(const_var(std::vector<Boxed_Value>{}), "cvec0");
+    chai->add_global_const(const_var(std::string("const")), "cstr5");
+    chai->add_global_const(const_var(std::string("")), "cstr0");
     vh::Fields out;
     for (size_t i = 2; i < f.size(); ++i) {
       std::string rendered;
